@@ -314,3 +314,56 @@ func HarnessProbeLoop() {
 	vCover(latest >= 1 && ok, "healthy after a later probe reachable")
 	vCover(latest >= 1 && !ok, "unhealthy after a later probe reachable")
 }
+
+// HarnessHealthDrain: probe results interleaved with drain windows (pause / stop / redeploy put a target into the
+// draining state and restore its previous state afterwards, exactly as Target.Drain does): a target that is not being
+// drained and whose latest probe succeeded is in the rotation and gets requests - "one that recovers is used again",
+// also when it failed a probe while it was being drained.
+func HarnessHealthDrain() {
+	k := vParam("k", 2)
+	L := vParam("steps", 4)
+	lb := &LoadBalancer{healthy: TargetList{}, all: TargetList{}}
+	latestOK := []bool{}
+	draining := []bool{}
+	saved := []TargetState{}
+	for i := 0; i < k; i++ {
+		t := vBareTarget("t"+vItoa(i), TargetStateAdding)
+		t.stateConsumer = lb
+		lb.all = append(lb.all, t)
+		latestOK = append(latestOK, false)
+		draining = append(draining, false)
+		saved = append(saved, TargetStateAdding)
+	}
+	sawDrainFailure := false
+	for step := 0; step < L; step++ {
+		i := vChoose("who"+vItoa(step), k)
+		t := lb.all[i]
+		switch vChoose("what"+vItoa(step), 3) {
+		case 0, 1:
+			ok := vChoose("ok"+vItoa(step), 2) == 1
+			t.HealthCheckCompleted(ok)
+			latestOK[i] = ok
+			if draining[i] && !ok {
+				sawDrainFailure = true
+			}
+		case 2:
+			if draining[i] {
+				t.updateState(saved[i]) // the drain ends: Target.Drain's deferred restore
+				draining[i] = false
+			} else {
+				saved[i] = t.updateState(TargetStateDraining) // a drain begins
+				draining[i] = true
+			}
+		}
+		for j, x := range lb.all {
+			if !draining[j] && latestOK[j] {
+				in := false
+				for _, h := range lb.healthy {
+					in = in || h == x
+				}
+				vAssert(in, "health: a target that is not being drained and whose latest probe succeeded is in the rotation")
+			}
+		}
+	}
+	vCover(sawDrainFailure, "probe failing during a drain reachable")
+}
